@@ -6,6 +6,7 @@ import glob, json, os, shutil, subprocess, sys
 PY = "/venv/bin/python"
 WT = "/tmp/seed/verify"
 checks_only = "--checks-only" in sys.argv
+ROUND = next((a.split("=")[1] for a in sys.argv[1:] if a.startswith("--round=")), "")
 only = [a for a in sys.argv[1:] if not a.startswith("--")]
 
 def sh(cmd, cwd=None, timeout=900):
@@ -21,11 +22,12 @@ for prop_dir in sorted(glob.glob("/tmp/seed/C[0-9][0-9]")):
         continue
     for diff in sorted(glob.glob(f"{prop_dir}/seeds/variant*.diff")):
         k = os.path.basename(diff)[len("variant"):-len(".diff")]
-        ported = f"/tmp/seed/ported/{prop}-{k}.diff"
+        tagk = f"r{ROUND}-{k}" if ROUND else k
+        ported = f"/tmp/seed/ported/{prop}-{tagk}.diff"
         patch = ported if os.path.exists(ported) else diff
         meta = json.load(open(f"{prop_dir}/seeds/variant{k}_meta.json"))
         demo_src = open(f"{prop_dir}/seeds/variant{k}_demo.py").read().replace(prop_dir, "/repo")
-        out = f"/verif/seeded/{prop}-{k}"
+        out = f"/verif/seeded/{prop}-{tagk}"
         os.makedirs(out, exist_ok=True)
         open(f"{out}/demo.py", "w").write(demo_src)
         shutil.copy(patch, f"{out}/patch.diff")
@@ -64,7 +66,7 @@ for prop_dir in sorted(glob.glob("/tmp/seed/C[0-9][0-9]")):
             finally:
                 sh("git checkout -- .", cwd="/repo")
         meta_out = {
-            "property": prop, "variant": k, "summary": meta.get("summary"), "needs": meta.get("needs"), "files": meta.get("files"),
+            "property": prop, "variant": tagk, "summary": meta.get("summary"), "needs": meta.get("needs"), "files": meta.get("files"),
             "source": "fresh sub-agent given only the property text and a scratch worktree" + (" (patch re-based by hand onto the later fix: commits)" if patch == ported else ""),
             "confirmed_at_repo_head": head,
             "what_i_ran": {
@@ -78,7 +80,7 @@ for prop_dir in sorted(glob.glob("/tmp/seed/C[0-9][0-9]")):
             "caught_by_own_property": res.get(prop) == "VIOLATION",
         }
         json.dump(meta_out, open(f"{out}/meta.json", "w"), indent=1)
-        summary.append((f"{prop}-{k}", confirmed, res.get(prop), sorted(p for p, v in res.items() if v == "VIOLATION" and p != prop)))
-        print(f"{prop}-{k}", "confirmed" if confirmed else f"NOT-CONFIRMED(rc0={rc0},rc1={rc1},{ot.strip()[:30]})", "own:", res.get(prop), "others:", sorted(p for p, v in res.items() if p != prop), flush=True)
+        summary.append((f"{prop}-{tagk}", confirmed, res.get(prop), sorted(p for p, v in res.items() if v == "VIOLATION" and p != prop)))
+        print(f"{prop}-{tagk}", "confirmed" if confirmed else f"NOT-CONFIRMED(rc0={rc0},rc1={rc1},{ot.strip()[:30]})", "own:", res.get(prop), "others:", sorted(p for p, v in res.items() if p != prop), flush=True)
 if os.path.exists(f"{WT}/_demo.py"):
     os.remove(f"{WT}/_demo.py")
